@@ -47,7 +47,7 @@ class AppendNode(ConfigList):
     @namespace('ayns')
     def on_premerge_impl(self, path, into):
         if into is None:
-            return ConfigList(self)
+            return ConfigList(self)._replace_other(self) # the plain list stands for this node: it keeps its safety and metadata
 
         node = into.ayns.remove_node(path)
         if node is None:
